@@ -182,6 +182,10 @@ class CommandWrapper(Wrapper):
         message = b"PING" if message is None else message
         return await self._with_middlewares(Command.PING, message.decode())(message=message)
 
+    async def _lock_probe(self, key: Key) -> bytes | None:
+        # ask the backend that owns the lock key: routing the text of the message would ask the default backend
+        return await self._with_middlewares(Command.PING, key)(message=b"LOCK")
+
     async def get_keys_count(self) -> int:
         result = 0
         for backend in self._backends.values():
